@@ -165,6 +165,33 @@ theorem unique_flux_1d_feasible (n : Nat) (h0 : Rat) (f : Nat → Rat) (hsum : s
       linarith
     · rw [if_pos (show 1 ≤ c from h2), show c - 1 + 1 = c by omega]; linarith
 
+/-- **Thin grids** (one cell thick in every direction but `a`: n×1, 1×n, n×1×1, 1×n×1, 1×1×n, and 1-D): faces along
+single-cell axes do not exist, so mass conservation determines the flux — two mass-conserving fluxes for the same mass
+difference agree on every face (generic dimension, positive face area). -/
+theorem unique_flux_thin (shape : List Nat) (h : List Rat) (a : Nat) (f U V : Nat → Rat) (ht : Thin shape a)
+    (harea : area h a ≠ 0) (hU : Feasible shape h f U) (hV : Feasible shape h f V) :
+    ∀ g, g < numFaces shape → U g = V g := by
+  intro g hg
+  have hW : ∀ c, c < numCells shape → divApply shape h (fun g => U g + (-1) * V g) c = 0 := by
+    intro c hc
+    rw [divApply_add, divApply_smul, hU c hc, hV c hc]; ring
+  have this : U g + (-1) * V g = 0 := divfree_thin_zero shape h _ a ht harea hW g hg
+  linarith
+
+/-- … hence every mass-conserving flux has the same cost there, for every norm, quadrature rule and cell weight:
+whatever method or mobility option produced a mass-conserving flux, its cost is the cost of the unique one. -/
+theorem thin_cost_unique (shape : List Nat) (h : List Rat) (a : Nat) (f U V : Nat → Rat) (nq : Nat)
+    (wq : Nat → Rat) (ptq : Nat → List Rat) (wgt : List Nat → Nat → Rat) (ht : Thin shape a)
+    (harea : area h a ≠ 0) (hU : Feasible shape h f U) (hV : Feasible shape h f V) :
+    cost N shape h nq wq ptq wgt U = cost N shape h nq wq ptq wgt V :=
+  cost_congr N shape h nq wq ptq wgt U V (unique_flux_thin shape h a f U V ht harea hU hV)
+
+/-- the decidable thinness test used by the driver is sound -/
+theorem thinB_sound (shape : List Nat) (a : Nat) (h : thinB shape a = true) : Thin shape a := by
+  simp only [thinB, Bool.and_eq_true, decide_eq_true_eq, List.all_eq_true, List.mem_range, Bool.or_eq_true,
+    beq_iff_eq] at h
+  exact ⟨h.1, fun b hb hne => (h.2 b hb).resolve_left hne⟩
+
 /-- the unified front-end reaches a back-end for each documented method (any capitalisation), distinct methods reach
 distinct back-ends, anything else is rejected with `NotImplementedError` (table re-tabulated from the running code) -/
 theorem dispatch_total :
@@ -187,7 +214,7 @@ theorem emd_single_move (value dy dx : Rat) (drow dcol : Int) (s : Rat) :
 first moments are ½ (integrates linears exactly on the unit cell), every mass-conserving flux `U` (`div U = vol·f`) and
 constant cell weight `k`: `|k| · N(Σ_c x_c · vol · f_c) ≤ cost(U)`, `x_c` = physical cell centres (`xcoord`). -/
 theorem first_moment_bound {N : (ℕ → ℝ) → ℝ} (hN : IsSeminormR N) (shape : List Nat) (h : List Rat)
-    (hl : h.length = shape.length) (hv : 0 ≤ vol h) (t : List (List ℝ × ℝ)) (ht : UnitRuleFacts t shape.length)
+    (hl : h.length = shape.length) (hv : 0 ≤ vol h) (t : List (List ℝ × ℝ)) (ht : CellRuleFacts t shape.length)
     (k : ℝ) (f U : Nat → Rat) (hF : Feasible shape h f U) :
     |k| * N (fun a => ((sumTo (numCells shape) (fun c => xcoord h a (decF shape c) * (vol h * f c)) : Rat) : ℝ)) ≤
       costR N shape h t k U := by
@@ -209,16 +236,16 @@ theorem selected_rules_accepted :
 
 /-- the hypothesis on the quadrature rule holds for `gauss_reference_cell(dim, order)` of every accepted table (C15) … -/
 theorem gauss_cell_rule_facts : ∀ p ∈ Gen.accepted, ∃ r, Gen.rule p.1 p.2 = .ok r ∧
-    UnitRuleFacts r.toUnitCell.real p.1 := by
+    CellRuleFacts r.toUnitCell.real p.1 := by
   intro p hp
   obtain ⟨r, hr, hs⟩ := C15.gauss_reference_cell_exact p hp
-  exact ⟨r, hr, unitRuleFacts_of_unitSpec hs (by omega) (ptsLengthOk_sound (rule_point_lengths.1 p hp) hr)⟩
+  exact ⟨r, hr, cellRuleFacts_of_unitSpec hs (by omega) (ptsLengthOk_sound (rule_point_lengths.1 p hp) hr)⟩
 
 /-- … and for `reference_cell_corners(dim)`. -/
-theorem corner_rule_facts : ∀ dim ∈ Gen.cornerDims, ∃ r, Gen.corners dim = .ok r ∧ UnitRuleFacts r.real dim := by
+theorem corner_rule_facts : ∀ dim ∈ Gen.cornerDims, ∃ r, Gen.corners dim = .ok r ∧ CellRuleFacts r.real dim := by
   intro dim hd
   obtain ⟨r, hr, hs⟩ := C15.corner_rule_multilinear dim hd
-  exact ⟨r, hr, unitRuleFacts_of_cornerSpec hs (ptsLengthOk_sound (rule_point_lengths.2 dim hd) hr)⟩
+  exact ⟨r, hr, cellRuleFacts_of_cornerSpec hs (ptsLengthOk_sound (rule_point_lengths.2 dim hd) hr)⟩
 
 /-- **First-moment bound in the norm the code uses**: Euclidean norm per quadrature point, Gauss rule of any accepted
 order on the unit cell (in particular order 0 and `"max"`): the Euclidean length of the displacement of the first moment,
@@ -253,8 +280,13 @@ example : (List.range 3).map (uniqueFlux1d (1/2) (fun c => [1, -3, 0, 2].getD c 
 example : feasibleB [4] [1/2] (fun c => [1, -3, 0, 2].getD c 0) (fun g => [1/2, -1, -1].getD g 0) = true := by
   decide +kernel
 
+/-- thin 2-D and 3-D instances: the prefix-sum flux conserves mass (so by `unique_flux_thin` it is THE flux) -/
+example : thinB [4, 1] 0 = true ∧ feasibleB [4, 1] [1/2, 3] (fun c => [1, -3, 0, 2].getD c 0)
+    (uniqueFluxThin [4, 1] [1/2, 3] 0 (fun c => [1, -3, 0, 2].getD c 0)) = true := by decide +kernel
+example : thinB [1, 1, 3] 2 = true ∧ feasibleB [1, 1, 3] [2, 1/2, 1/4] (fun c => [1, 1, -2].getD c 0)
+    (uniqueFluxThin [1, 1, 3] [2, 1/2, 1/4] 2 (fun c => [1, 1, -2].getD c 0)) = true := by decide +kernel
 /-- the rule hypothesis of the first-moment bound is satisfiable by the code's own rules -/
-example : ∃ r, Gen.corners 2 = .ok r ∧ UnitRuleFacts r.real 2 := corner_rule_facts 2 (by decide)
-example : ∃ r, Gen.rule 3 2 = .ok r ∧ UnitRuleFacts r.toUnitCell.real 3 := gauss_cell_rule_facts (3, 2) (by decide)
+example : ∃ r, Gen.corners 2 = .ok r ∧ CellRuleFacts r.real 2 := corner_rule_facts 2 (by decide)
+example : ∃ r, Gen.rule 3 2 = .ok r ∧ CellRuleFacts r.toUnitCell.real 3 := gauss_cell_rule_facts (3, 2) (by decide)
 
 end Darsia.C05
